@@ -753,7 +753,7 @@ class XYFit(FitBase):
         _f_deriv_by_params = _f_deriv_by_params.T
         # here: df/dp[par_idx]|x=x[x_idx] = _f_deriv_by_params[x_idx][par_idx]
 
-        _band_y = np.zeros_like(x)
+        _band_y = np.zeros_like(x, dtype=float)
 
         # Cut out fixed parameters which have nan as derivative:
         _not_pars_fixed = [_par_name not in self._fitter.fixed_parameters for _par_name in self.parameter_names]
